@@ -221,3 +221,17 @@ reg("C13", "exploration", "TLA+ rules BuildOk / ReserialiseOk (CemiLData.tla: fr
     "changes only the frame type bit, the reserved bit of control field 1 and the reserved application bits of services without data.",
     "Trusted: TLC; the list of services whose low APCI bits are reserved (GroupValueRead, long group values, IndividualAddressRead / Response / Write).",
     "DESIGN.md section 5 C13", driver="c12", entry="run13")
+
+reg("C01", "exploration", "TLA+ reference reading of address text and wire form (Address.tla) evaluated by TLC on recorded render / parse / serialise sessions of the real address classes",
+    "Every raw value (all 65 536 in thorough; boundaries, a stride and random values in quick) of individual and group addresses under the three notations is rendered, parsed back, "
+    "serialised and deserialised by the real classes; TLC judges each session with an independent reader of the rendered text (levels, ranges, number of parts per notation) and the "
+    "two-octet wire form. Malformed text built from tokens (overflow widths, separators, whitespace, signs, non-ASCII digits) and non-string objects go through GroupAddress, "
+    "IndividualAddress and parse_device_group_address under each notation: only a fixed point or the address parse error is allowed.",
+    "Trusted: TLC, the reader in Address.tla (anchored to documented examples by ASSUMEs).",
+    "DESIGN.md section 5 C01", driver="c01", entry="run01")
+reg("C02", "exploration", "TLA+ filter semantics (Address.tla: levels, open ends, clamping, reversed ranges) evaluated by TLC on recorded AddressFilter.match results",
+    "Random pattern ASTs with 1..3 levels, 1..2 ranges per level, bounds from the boundary set of each level, open ends, reversed and single-value ranges are printed in a random "
+    "spelling of the documented grammar and matched by the real AddressFilter (address object, address text, and the telegram queue's callback filter) against the addresses at and "
+    "around every range bound; TLC judges each result against Match.",
+    "Trusted: TLC. A 3-level pattern is matched under the 3-level notation, 2-level under 2-level, 1-level under free (matching a pattern under another notation raises in the library and is not generated).",
+    "DESIGN.md section 5 C02", driver="c01", entry="run02")
